@@ -67,7 +67,20 @@ ADDED = {
     "w5_C18": "numeric entries in interaction-matrix rows (stored as numbers in both orientations)",
     "w5_C19": "serials that restart in every MODEL / are all equal, on inputs that need completion",
 }
-ROUND = {"C": 1, "w2": 2, "w3": 3, "w4": 4, "w5": 5}
+ADDED.update({
+    "w6_C01": "bridged cysteines that share a residue number (E42/F42, E42/E42A)",
+    "w6_C03": "the second chain selected first, then everything (first-seen order of chains)",
+    "w6_C04": "a record repeated 0.02 A away, with translations over a full 0.1 A period",
+    "w6_C05": "the largest separations the coordinate field admits (corner to corner, end to end of one axis)",
+    "w6_C06": "RowOrderSame: the rows of the written file keep their order under renaming",
+    "w6_C07": "--protonate-all on every ligand group type of the kit",
+    "w6_C11": "exact ties: pairs exactly on a threshold at coordinates that are exact in binary (Gen_CellList_ties)",
+    "w6_C13": "chain selection together with a titrate-only list (blank chain written '_')",
+    "w6_C15": "coupled constructs under the optional parameter settings of covalent coupling (shared, kept)",
+    "w6_C16": "two lysines hydrogen-bonded at 3.2 A (iterative base-base pair with a side-chain term)",
+    "w6_C17": "a chain whose first residue shares its number with the insertion-coded residues after it",
+})
+ROUND = {"C": 1, "w2": 2, "w3": 3, "w4": 4, "w5": 5, "w6": 6, "w7": 7}
 
 
 def main():
